@@ -1,9 +1,10 @@
 INIT GInit
 NEXT GNext
 CONSTANTS
-  Bounds <- BoundsEQ
+  Bounds <- BoundsTiny
   ReqSet <- ReqsSmall
   ReadAttrs <- UrlAttrs
   Depth = 0
   SharedUriSlot = FALSE
-INVARIANT EmitG
+INVARIANT OutcomeShape
+POSTCONDITION PostG
